@@ -198,6 +198,7 @@ type vfC04Res struct {
 	Missing    []string
 	NReq       int
 	Hang       string
+	Leak       bool
 }
 
 func vfC04DefaultOpts() vfC04Opts {
@@ -213,9 +214,20 @@ func vfC04Send(t *testing.T, kvs []vfc20.KV, data []byte, size int64, o vfC04Opt
 	oldPipe := config.RdbPipeSize
 	config.RdbPipeSize = o.PipeSize
 	defer func() { config.RdbPipeSize = oldPipe }()
+	finished := false
 	defer func() {
 		if r := recover(); r != nil {
-			res.Hang = fmt.Sprint(r)
+			msg := fmt.Sprint(r)
+			if finished && strings.Contains(msg, "main bubble goroutine has exited but blocked goroutines remain") {
+				// SendRdb returned and the results were taken; what is left behind is
+				// the rdb.ParseRdb goroutine, blocked for ever sending into rdbPipe
+				// that nobody reads any more (aborted replay, pipe smaller than the
+				// rest of the snapshot). A leak, not a hang of the replay: counted,
+				// reported as an observation, not as a violation of this property.
+				res.Leak = true
+				return
+			}
+			res.Hang = msg
 		}
 	}()
 	synctest.Test(t, func(t *testing.T) {
@@ -298,6 +310,7 @@ func vfC04Send(t *testing.T, kvs []vfc20.KV, data []byte, size int64, o vfC04Opt
 				res.Missing = append(res.Missing, string(kv.Key))
 			}
 		}
+		finished = true
 	})
 	return
 }
@@ -311,6 +324,9 @@ func vfC04Monitor(s *vfutil.Session, what string, file string, data []byte, o vf
 		s.Count("viol_hang")
 		s.Violate("hang", fmt.Sprintf("%s: SendRdb did not return: %s", what, r.Hang), rp)
 		return
+	}
+	if r.Leak {
+		s.Count("observed_parser_goroutine_left_blocked_after_abort")
 	}
 	if !r.AllApplied {
 		s.Count("incomplete_replays")
